@@ -583,7 +583,11 @@ def c13_merges(tier, seed):
         return None if x is None else float('%.12g' % x)
 
     def state(c):
-        return (rnd12(c.ND_H_ref), rnd12(c.ND_S_ref), tuple(sorted((float(k), float(v)) for k, v in c.ND_Cp_data.items())), c.range, c.T_ref, hasattr(c, '_correlation'))
+        # stored fields AND what the correlation answers at its reference temperature (a merged object whose table delegate was not
+        # rebuilt stores the right numbers and answers with the old ones), and the class (a merge must not turn a group correlation
+        # into its base class)
+        ev = tuple(rnd12(real.outcome(getattr(c, m), c.T_ref)[1]) if real.outcome(getattr(c, m), c.T_ref)[0] == 'ok' else 'exc' for m in ('get_HoRT', 'get_SoR'))
+        return (rnd12(c.ND_H_ref), rnd12(c.ND_S_ref), tuple(sorted((float(k), float(v)) for k, v in c.ND_Cp_data.items())), c.range, c.T_ref, hasattr(c, '_correlation'), ev, type(c).__name__)
     ncase = 15 if tier == 'quick' else 120
     for ci in range(ncase):
         Ts = sorted(rnd.sample(range(300, 1300, 100), rnd.randint(0, 4)))
@@ -615,7 +619,7 @@ def c13_merges(tier, seed):
                 viol.append({'id': 'case%d-idempotence' % ci, 'input': {'parts': parts, 'order': order}, 'observed': s2, 'expected': s1})
             finals.add(s1)
         distinct += 1
-        want = (data['H'], data['S'], tuple(sorted(data['cp'].items())), (200.0, 1500.0), 298.15, bool(data['cp']))
+        want = (data['H'], data['S'], tuple(sorted(data['cp'].items())), (200.0, 1500.0), 298.15, bool(data['cp']), (rnd12(data['H']), rnd12(data['S'])), 'ThermochemIncomplete')
         if len(finals) != 1 or next(iter(finals)) != want:
             if len(viol) < 12:
                 viol.append({'id': 'case%d-union' % ci, 'input': {'data': data, 'parts': parts}, 'observed': sorted(finals, key=repr)[:2], 'expected': want})
@@ -680,6 +684,16 @@ def c13_merges(tier, seed):
         kind_, lib = real.outcome(GroupLibrary.Load, p)
         if kind_ == 'exc' or state(lib['C(C)(H)3']['thermochem']) != ref:
             viol.append({'id': 'nested-include', 'input': 'library -> mid -> c, c2', 'observed': lib if kind_ == 'exc' else state(lib['C(C)(H)3']['thermochem']), 'expected': ref})
+        # nesting of depth two through a file that says nothing about the group (its entry is created by an include and merged into higher up)
+        write_library(tmp, 'silent.yaml', units, {'C(C)2(H)2': dict(base, H_ref='2.0')}, include=['s.yaml', 'c.yaml', 'c2.yaml'])
+        write_library(tmp, 'silent2.yaml', units, {}, include=['silent.yaml'])
+        for top_inc in (['silent.yaml'], ['silent2.yaml']):
+            p = write_library(tmp, 'library.yaml', units, {'C(C)(H)3': fileparts['h.yaml']}, include=top_inc)
+            n += 1
+            kind_, lib = real.outcome(GroupLibrary.Load, p)
+            if kind_ == 'exc' or state(lib['C(C)(H)3']['thermochem']) != ref:
+                viol.append({'id': 'nested-include-through-%s' % top_inc[0], 'input': 'library (H) -> %s (other group only) -> s, c, c2' % top_inc[0],
+                             'observed': lib if kind_ == 'exc' else state(lib['C(C)(H)3']['thermochem']), 'expected': ref})
         # conflicting files
         for a, b in (('h.yaml', 'h0.yaml'), ('h0.yaml', 'h.yaml')):
             n += 1
